@@ -136,9 +136,56 @@ func checkC02(r *core.Run) {
 		}
 		return nil
 	}
+	// In AT mode sql.Tx always wraps a real target transaction; only the XA connection stores nil
+	// (checked below: withOriginTx(nil) appears only under the XAMode test). The nil-target branches of
+	// Tx.Rollback / commitOnLocal are therefore infeasible on the AT path.
+	atTargetNonNil := func(pkg *packages.Package, cond ast.Expr, branch bool) []flow.Tag {
+		be, ok := ast.Unparen(cond).(*ast.BinaryExpr)
+		if !ok || (be.Op != token.EQL && be.Op != token.NEQ) || !isNilIdent(pkg.TypesInfo, be.Y) {
+			return nil
+		}
+		if sel, ok := ast.Unparen(be.X).(*ast.SelectorExpr); ok && sel.Sel.Name == "target" {
+			if (be.Op == token.EQL) == branch {
+				return []flow.Tag{flow.Dead}
+			}
+		}
+		return nil
+	}
+	for _, f := range w.SortedFuncs() {
+		if f.Pkg.PkgPath != pDSSQL || w.IsTestFile(f.Decl.Pos()) {
+			continue
+		}
+		hasNil := false
+		for _, cs := range w.Calls(f) {
+			if cs.Static != nil && cs.Static.Name() == "withOriginTx" && len(cs.Call.Args) == 1 && isNilIdent(f.Pkg.TypesInfo, cs.Call.Args[0]) {
+				hasNil = true
+			}
+		}
+		if !hasNil {
+			continue
+		}
+		res := (&flow.Spec{W: w, CondTags: func(pkg *packages.Package, cond ast.Expr, branch bool) []flow.Tag {
+			if be, ok := ast.Unparen(cond).(*ast.BinaryExpr); ok && be.Op == token.EQL && branch {
+				if c := core.ConstObj(pkg.TypesInfo, be.Y); c != nil && c.Name() == "XAMode" {
+					return []flow.Tag{"xamode"}
+				}
+			}
+			return nil
+		}, Classify: func(pkg *packages.Package, call *ast.CallExpr, callee *types.Func) []flow.Tag {
+			if callee != nil && callee.Name() == "withOriginTx" && len(call.Args) == 1 && isNilIdent(pkg.TypesInfo, call.Args[0]) {
+				return []flow.Tag{"niltarget"}
+			}
+			return nil
+		}}).Analyze(f)
+		for _, cp := range res.Calls {
+			r.Sites++
+			r.Check(cp.Before.Has("xamode"), "C02.txclosed", core.ShortKey(f.Obj)+" : a Tx without a target transaction is created only in XA mode", w.Pos(cp.Call.Pos()), "nil target only under the XAMode test",
+				"a Tx without a target transaction can be created outside XA mode: the AT commit would then 'commit' nothing")
+		}
+	}
 	for _, fn := range a.steps {
 		r.Fn(fn)
-		sp := &flow.Spec{W: w, Depth: 2, Classify: classify, NoDescend: noDesc}
+		sp := &flow.Spec{W: w, Depth: 2, Classify: classify, NoDescend: noDesc, CondTags: atTargetNonNil}
 		res := sp.Analyze(fn)
 		nFlush, nCommit := 0, 0
 		for _, cp := range res.Calls {
@@ -233,7 +280,7 @@ func c02WrappedCommit(r *core.Run, w *core.World, sp *flow.Spec, fn *core.FuncIn
 		if fi == nil || cs.Iface || fi.Pkg.PkgPath != pDSSQL {
 			continue
 		}
-		sub := (&flow.Spec{W: w, Depth: 1, Classify: classify, NoDescend: sp.NoDescend}).Analyze(fi)
+		sub := (&flow.Spec{W: w, Depth: 1, Classify: classify, NoDescend: sp.NoDescend, CondTags: sp.CondTags}).Analyze(fi)
 		if sub.Sum.MustAll["localcommit"] {
 			wrap[cs.Static] = true
 		}
@@ -241,7 +288,7 @@ func c02WrappedCommit(r *core.Run, w *core.World, sp *flow.Spec, fn *core.FuncIn
 	if len(wrap) == 0 {
 		return 0
 	}
-	sp2 := &flow.Spec{W: w, Depth: 2, NoDescend: sp.NoDescend, Classify: func(pkg *packages.Package, call *ast.CallExpr, callee *types.Func) []flow.Tag {
+	sp2 := &flow.Spec{W: w, Depth: 2, NoDescend: sp.NoDescend, CondTags: sp.CondTags, Classify: func(pkg *packages.Package, call *ast.CallExpr, callee *types.Func) []flow.Tag {
 		if wrap[callee] {
 			return []flow.Tag{"commitstep"}
 		}
